@@ -75,6 +75,10 @@ func Curated() []*Prog {
 			Tasks: [][]Op{{{K: PubRace, Ty: 0}}, {{K: CancelCtx}}, {CountOp(0)}}},
 		{Name: "publish-cancelled-part-way-once-in-the-middle", Pre: []Op{SubOp(0, 1, plain), SubOp(0, 0, once), SubOp(0, 2, async), SubOp(0, 3, once)},
 			Tasks: [][]Op{{{K: PubRace, Ty: 0}}, {{K: CancelCtx}, PubOp(0)}}},
+		// events queued behind a running invocation of an Async+Sequential handler lose their
+		// context (one after the other, both the same one); the probing publish after quiescence is delivered
+		{Name: "queued-deliveries-lose-their-context", MidPoint: true, Pre: []Op{SubOp(0, 0, asyncSeq)},
+			Tasks: [][]Op{{PubOp(0)}, {{K: PubRace, Ty: 0}, {K: PubRace, Ty: 0}}, {{K: CancelCtx}}}},
 		// handlers that panic on one event (the bus recovers): the event after it is delivered
 		// like any other, to a Sequential handler too
 		{Name: "handlers-panic-on-one-event", Pre: []Op{SubOp(0, 0, evt.SubOpts{Sequential: true}), SubOp(0, 1, plain), SubOp(0, 2, asyncSeq)},
